@@ -626,8 +626,8 @@ func main() {
 		os.Setenv("VERIF_DEADLINE", fmt.Sprint(time.Now().Add(budget).Unix()))
 		logdir := filepath.Join(mc.Root(), ".work", fmt.Sprintf("race-c14-%d", os.Getpid()))
 		os.MkdirAll(logdir, 0o755)
-		defer os.RemoveAll(logdir)
 		rm := mc.RunShardsBin(run, nproc, raceBin, []string{"GORACE=halt_on_error=0 exitcode=0 log_path=" + filepath.Join(logdir, "race"), "VERIF_RACE_LOG=" + filepath.Join(logdir, "race")})
+		os.RemoveAll(logdir) // Finish exits the process: no defer
 		raceCov["race_build_executions"] = rm.Counters["executions"]
 		raceCov["race_reports_total"] = rm.Counters["race_reports"]
 		raceCov["race_pairs_in_gorm"] = rm.Sets["race_pairs"]
